@@ -797,11 +797,25 @@ def read_cache_entry(
         name, _consumed = _decompress_path_from_stream(f, previous_path)
     else:
         # Versions < 4: regular name reading
-        name = f.read(flags & FLAG_NAMEMASK)
+        name_offset = f.tell()
+        name_len = flags & FLAG_NAMEMASK
+        name = f.read(name_len)
+        if name_len == FLAG_NAMEMASK:
+            # The length field is saturated: the name is at least that long
+            # and ends at the first NUL byte.
+            rest = []
+            while True:
+                c = f.read(1)
+                if not c:
+                    raise ValueError("truncated index entry name")
+                if c == b"\0":
+                    break
+                rest.append(c)
+            name += b"".join(rest)
 
     # Padding:
     if version < 4:
-        real_size = (f.tell() - beginoffset + 8) & ~7
+        real_size = (name_offset - beginoffset + len(name) + 8) & ~7
         f.read((beginoffset + real_size) - f.tell())
 
     return SerializedIndexEntry(
@@ -840,7 +854,9 @@ def write_cache_entry(
         # Version 4: use compression but set name_len to actual filename length
         # This matches how C Git implements index v4 flags
         compressed_path = _compress_path(entry.name, previous_path)
-    flags = len(entry.name) | (entry.flags & ~FLAG_NAMEMASK)
+    # Names that do not fit the 12-bit length field saturate it; readers then
+    # scan for the terminating NUL.
+    flags = min(len(entry.name), FLAG_NAMEMASK) | (entry.flags & ~FLAG_NAMEMASK)
 
     if entry.extended_flags:
         flags |= FLAG_EXTENDED
